@@ -903,6 +903,7 @@ pub fn run_c18_kill(ctx: &Ctx) {
 pub fn replay(id: &str, sub: &str, case: &serde_json::Value) -> Option<Result<Outcome, String>> {
     let raw = || RawIf::open("cli0").map_err(|e| format!("wire rig unavailable: {}", e));
     match (id, sub) {
+        ("C17", "wire-ra") => Some(C17Wire::new().and_then(|p| replay_wire(&p, case))),
         ("C20", "wire-listing") => Some(raw().and_then(|raw| replay_wire(&C20Wire { raw }, case))),
         ("C08", "wire-http-acl") => Some(raw().and_then(|raw| replay_wire(&C08Http { raw }, case))),
         ("C18", "wire-kill") => Some(raw().and_then(|raw| replay_wire(&C18Kill { raw }, case))),
@@ -922,5 +923,249 @@ pub fn replay(id: &str, sub: &str, case: &serde_json::Value) -> Option<Result<Ou
             }))
         }
         _ => None,
+    }
+}
+
+// ---------------------------------------------------------------------------------------------
+// C17 wire: router solicitation -> captured router advertisement from the real erbium
+
+pub struct C17Wire {
+    pub raw: RawIf,
+    pub cli_ll: Ipv6Addr,
+}
+
+pub const SRV_MAC: [u8; 6] = [0x02, 0, 0, 0, 0, 0x51];
+pub const CLI_MAC: [u8; 6] = [0x02, 0, 0, 0, 0, 0xc1];
+
+fn link_local(dev: &str) -> Option<Ipv6Addr> {
+    let t = crate::netns::sh(&format!("ip -6 -o addr show dev {} scope link", dev)).ok()?;
+    t.split_whitespace()
+        .find(|w| w.starts_with("fe80"))
+        .and_then(|w| w.split('/').next())
+        .and_then(|a| a.parse().ok())
+}
+
+fn rs_frame(src: &Ipv6Addr) -> Vec<u8> {
+    let dst: Ipv6Addr = "ff02::2".parse().unwrap();
+    let mut icmp = vec![133u8, 0, 0, 0, 0, 0, 0, 0, 1, 1];
+    icmp.extend_from_slice(&CLI_MAC);
+    let ck = crate::rfc4861::icmp6_checksum(src, &dst, &icmp);
+    icmp[2] = (ck >> 8) as u8;
+    icmp[3] = ck as u8;
+    let mut f = vec![0x33, 0x33, 0, 0, 0, 2];
+    f.extend_from_slice(&CLI_MAC);
+    f.extend_from_slice(&[0x86, 0xdd]);
+    f.extend_from_slice(&[0x60, 0, 0, 0]);
+    f.extend_from_slice(&(icmp.len() as u16).to_be_bytes());
+    f.push(58);
+    f.push(255);
+    f.extend_from_slice(&src.octets());
+    f.extend_from_slice(&dst.octets());
+    f.extend_from_slice(&icmp);
+    f
+}
+
+impl C17Wire {
+    pub fn new() -> Result<C17Wire, String> {
+        let raw = RawIf::open("cli0")?;
+        let cli_ll = link_local("cli0").ok_or("cli0 has no link-local address")?;
+        Ok(C17Wire { raw, cli_ll })
+    }
+
+    /// Solicit and capture one RA: (hop limit, checksum ok, ICMPv6 message).
+    fn solicit(&self) -> Option<(u8, bool, Vec<u8>)> {
+        for _ in 0..4 {
+            self.raw.drain();
+            let _ = self.raw.send(&rs_frame(&self.cli_ll));
+            let deadline = Instant::now() + Duration::from_millis(1200);
+            while Instant::now() < deadline {
+                let f = match self.raw.recv(Duration::from_millis(200)) {
+                    Some(f) => f,
+                    None => continue,
+                };
+                if f.len() < 14 + 40 + 16 || f[12] != 0x86 || f[13] != 0xdd || f[14 + 6] != 58 {
+                    continue;
+                }
+                let ip = &f[14..];
+                let plen = ((ip[4] as usize) << 8) | ip[5] as usize;
+                if ip.len() < 40 + plen {
+                    continue;
+                }
+                let msg = &ip[40..40 + plen];
+                if msg[0] != 134 {
+                    continue;
+                }
+                let mut s = [0u8; 16];
+                s.copy_from_slice(&ip[8..24]);
+                let mut d = [0u8; 16];
+                d.copy_from_slice(&ip[24..40]);
+                let mut zeroed = msg.to_vec();
+                let sent = ((zeroed[2] as u16) << 8) | zeroed[3] as u16;
+                zeroed[2] = 0;
+                zeroed[3] = 0;
+                let want = crate::rfc4861::icmp6_checksum(&Ipv6Addr::from(s), &Ipv6Addr::from(d), &zeroed);
+                return Some((ip[7], sent == want, msg.to_vec()));
+            }
+        }
+        None
+    }
+}
+
+impl WireProp for C17Wire {
+    type Case = crate::props_ra::RaCase;
+    fn sub(&self) -> &'static str {
+        "wire-ra"
+    }
+    fn exec_batch(&self, cases: &[crate::props_ra::RaCase]) -> Vec<Outcome> {
+        use crate::props_ra::{judge_ra, render_named, Tri};
+        cases
+            .iter()
+            .map(|c0| {
+                let mut out = Outcome::default();
+                // what the rig's interface resolves to
+                let mut c = c0.clone();
+                c.ll = Some(SRV_MAC);
+                c.if_mtu = Some(1500);
+                c.self6 = srv6();
+                c.fallback_lifetime = 0;
+                let text = match render_named(&c, "srv0") {
+                    Some(t) => t,
+                    None => {
+                        out.excluded.push("yaml-emitter-did-not-round-trip");
+                        return out;
+                    }
+                };
+                // the loader must accept it (unrepresentable values may be rejected: skip those)
+                if let Ok(Err(_)) = crate::conf::load(&text) {
+                    out.excluded.push("rejected-at-load");
+                    return out;
+                }
+                let body: String = text.lines().filter(|l| !l.starts_with("---")).map(|l| format!("{}\n", l)).collect();
+                let conf = format!(
+                    "---\naddresses: [10.55.0.0/24]\napi-listeners: [\"/var/lib/erbium/control\"]\ndns-routes: []\n{}",
+                    body
+                );
+                wipe_db();
+                let mut srv = match NetServer::start("erbium", &conf, "warn") {
+                    Ok(s) => s,
+                    Err(e) => {
+                        out.fail("rig-error", e);
+                        return out;
+                    }
+                };
+                if let Err(e) = srv.wait_dhcp_ready(&self.raw) {
+                    out.fail("rig-error", e);
+                    return out;
+                }
+                std::thread::sleep(Duration::from_millis(100));
+                let (hop, ck_ok, msg) = match self.solicit() {
+                    Some(x) => x,
+                    None => {
+                        let p = panic_fail(&srv);
+                        match p {
+                            Some(f) => out.fail(f.sig, f.detail),
+                            None => out.fail("C17:wire:no-advertisement", format!("no RA in answer to 4 router solicitations; {}", srv.stderr_tail())),
+                        }
+                        return out;
+                    }
+                };
+                out.nontrivial = true;
+                match (&c.iface.mtu, &c.iface.lifetime) {
+                    (Tri::Absent, _) => out.class("mtu-from-interface"),
+                    (Tri::Null, _) => out.class("mtu-suppressed"),
+                    _ => out.class("mtu-configured"),
+                }
+                if hop != 255 {
+                    out.fail("C17:wire:hop-limit-not-255", format!("{}", hop));
+                    return out;
+                }
+                if !ck_ok {
+                    out.fail("C17:wire:icmpv6-checksum", "the ICMPv6 checksum of the captured RA does not verify");
+                    return out;
+                }
+                let ra = match crate::rfc4861::decode_ra(&msg) {
+                    Ok(r) => r,
+                    Err(e) => {
+                        out.fail("C17:rfc-decoder-rejects", e);
+                        return out;
+                    }
+                };
+                let mtu_param = match &c.iface.mtu {
+                    Tri::Val(v) => Some(*v),
+                    Tri::Null => None,
+                    Tri::Absent => Some(1500),
+                };
+                judge_ra(&c, mtu_param, &ra, false, &mut out);
+                if out.fail.is_none() {
+                    if let Some(f) = panic_fail(&srv) {
+                        out.fail(f.sig, f.detail);
+                    }
+                }
+                out
+            })
+            .collect()
+    }
+}
+
+pub fn run_c17_wire(ctx: &Ctx) {
+    use crate::props_ra::*;
+    let prop = match C17Wire::new() {
+        Ok(p) => p,
+        Err(e) => {
+            ctx.assume(format!("wire tier unavailable: {}", e));
+            return;
+        }
+    };
+    // the nine mtu x lifetime tri-state combinations through the real binary
+    let base = IfaceSpec {
+        hop_limit: Tri::Val(64),
+        managed: Tri::Absent,
+        other: Tri::Val(true),
+        lifetime: Tri::Absent,
+        reachable: Tri::Absent,
+        retransmit: Tri::Absent,
+        mtu: Tri::Absent,
+        prefixes: Some(vec![PrefixSpec {
+            addr: "fd55::".parse().unwrap(),
+            len: 64,
+            onlink: Tri::Absent,
+            autonomous: Tri::Absent,
+            valid: Tri::Absent,
+            preferred: Tri::Absent,
+        }]),
+        rdnss: None,
+        dnssl: None,
+        captive: Tri::Absent,
+        pref64: None,
+    };
+    for mtu in [Tri::Absent, Tri::Null, Tri::Val(1400u32)] {
+        for lifetime in [Tri::Absent, Tri::Null, Tri::Val(Dur { secs: 3600, style: 1 })] {
+            let mut iface = base.clone();
+            iface.mtu = mtu.clone();
+            iface.lifetime = lifetime;
+            let case = RaCase {
+                top_dns: None,
+                top_search: Some(vec!["example.org".into()]),
+                top_captive: None,
+                iface,
+                ll: None,
+                if_mtu: None,
+                self6: srv6(),
+                fallback_lifetime: 0,
+            };
+            let out = exec_one(&prop, &case);
+            ctx.record(prop.sub(), &case, &out);
+            if let Some(f) = out.fail {
+                if ctx.is_known(&f.sig) {
+                    ctx.known_hit(&f.sig);
+                } else {
+                    ctx.violation(prop.sub(), &f, &case);
+                    return;
+                }
+            }
+        }
+    }
+    if ctx.tier == Tier::Thorough {
+        run_wire(ctx, &prop, ra_case_strategy(), 60, 1);
     }
 }
